@@ -12,7 +12,11 @@ import AsyncsshModel.Gen.C04
   and (asyncssh/public_key.py) `SSHOpenSSHCertificate.validate`, whose individual tests, their order and the
   arguments passed to it are REGENERATED from the source into `Gen/C04.lean`.
 
-  Keys are abstract identities (`KeyId`): two blobs get the same id iff `SSHKey.__eq__` (equal public data) holds.
+  Keys are abstract identities (`KeyId`): two keys get the same id iff their public data are equal.  The
+  trusted / CA / revoked sets hold *public* keys: known_hosts text only ever yields public keys, and
+  `load_public_keys` converts a key object handed over in the key-list form to its public key (`SSHKey.__eq__`
+  also compares the private values, so before that repair a revoked or trusted list holding a private key
+  object never matched the public key a server presents — the harness reaches that form, the model does not).
   Decoding of the blob (`decode_ssh_certificate` / `decode_ssh_public_key`) is outside this model (C15/C16):
   the server's blob arrives already classified as `Presented`.  The trusted / CA / revoked sets are the output of
   `match_known_hosts` (C17) for the lookup arguments computed by `lookupHost` / `lookupPort`.
@@ -54,6 +58,12 @@ inductive Reject where
   | keyRevoked | keyUntrusted | caRevoked | caUntrusted
   | certType | notYetValid | expired | principal
   | undecodable | x509
+  /-- the decoded certificate / key cannot be used with the negotiated host key algorithm
+      (`key_alg not in cert.host_key_algorithms` / `key_alg not in key.sig_algorithms`) -/
+  | algMismatch
+  /-- raised by `validate_server_host_key` after the trust decision: the signature names another signature
+      algorithm than the one of the negotiated host key algorithm (KeyExchangeFailed, not a host key error) -/
+  | sigAlg
   deriving Repr, DecidableEq
 
 instance : DecidableEq (Except Reject KeyId) := fun a b =>
@@ -68,6 +78,7 @@ def Reject.name : Reject → String
   | .caRevoked => "ca-revoked" | .caUntrusted => "ca-untrusted"
   | .certType => "cert-type" | .notYetValid => "not-yet-valid" | .expired => "expired"
   | .principal => "principal" | .undecodable => "undecodable" | .x509 => "x509"
+  | .algMismatch => "alg-mismatch" | .sigAlg => "sig-alg"
 
 /-- The application's answers (`SSHClient.validate_host_public_key`, `validate_host_ca_key`) and the verdict of
     the X.509 chain validation, which is outside this model. -/
